@@ -3,5 +3,5 @@ CONSTANTS
   RedLen = 4
   SmallBits = 7
 SPECIFICATION Spec
-INVARIANTS MachineAgrees CanonicalFixpoint ValuesWellFormed RoundTrip SmallInts EmitCase
+INVARIANTS MachineAgrees CanonicalFixpoint ValuesWellFormed RoundTrip SmallInts WordArithmetic EmitCase
 CHECK_DEADLOCK FALSE
